@@ -9,7 +9,8 @@ package quicx
 // flavours (a dial with an `Unknown` identity bypasses the cache fast path and
 // therefore negotiates while a connection is already cached - this is what a
 // bootstrap dial does in cmd/server), injected connection loss between/around
-// rounds, and a generated number of rounds.
+// rounds, a generated simulated one-way network latency (0 = raw loopback,
+// 0.3-8 ms through a delaying PacketConn) and a generated number of rounds.
 //
 // Oracle (every clause is timing independent; anything that depends on
 // waiting is a budget and ends as "inconclusive"):
@@ -27,6 +28,17 @@ package quicx
 //  E3  streams handed out before/during the negotiation still echo after the
 //      settle when their connection is alive (evidence only) and their
 //      connection was not closed by the negotiation (E1).
+//
+// Known finding (listed in known_findings.d/quicx.json, witnessed at the start
+// of every run): concurrent all-fresh negotiations make the two peers cache
+// different connections and close each other's choice. Evidence of exactly
+// that class (a connection cached by ONE peer only and closed 508 by the other)
+// is counted and skipped; every other class stays asserted.
+//
+// The implementation depends on two 1 s grace periods (stream reset 1 s after
+// quicConn.Close, rejecting acceptor closes after 1 s); when this process was
+// measurably starved (>= 300 ms oversleep of the poller) the two classes that a
+// late delivery alone can produce are reported as inconclusive.
 
 import (
 	"context"
@@ -89,10 +101,10 @@ type preSpec struct {
 }
 
 type program struct {
-	Nodes     int `json:"nodes"`
-	LatencyUS int `json:"latency_us"` // simulated one-way network latency (0 = raw loopback)
-	Pre    []preSpec   `json:"pre,omitempty"`
-	Rounds []roundSpec `json:"rounds"`
+	Nodes     int         `json:"nodes"`
+	LatencyUS int         `json:"latency_us"` // simulated one-way network latency (0 = raw loopback)
+	Pre       []preSpec   `json:"pre,omitempty"`
+	Rounds    []roundSpec `json:"rounds"`
 }
 
 func (p program) key() string {
@@ -207,22 +219,22 @@ type dialResult struct {
 }
 
 type outcome struct {
-	Program      program       `json:"program"`
-	Verdict      string        `json:"verdict"` // ok | violation | inconclusive
-	Sig          string        `json:"sig,omitempty"`
-	Msg          string        `json:"msg,omitempty"`
-	Dials        []*dialResult `json:"dials"`
-	Final        []string      `json:"final_cache"`
-	Events       []event       `json:"events"`
-	Addrs        []string      `json:"addrs"`
-	Nontrivial   bool          `json:"nontrivial"`
-	Labels       []string      `json:"labels"`
-	MinGapUS     int64         `json:"min_opposite_start_gap_us"`
-	DialErrors   int           `json:"dial_errors"`
-	HeldChecked  int           `json:"held_streams_checked"`
-	HeldEchoFail int           `json:"held_streams_echo_failed_conn_alive"`
-	WallMS       int64         `json:"wall_ms"`
-	MaxStallUS   int64         `json:"max_scheduler_stall_us"`
+	Program      program        `json:"program"`
+	Verdict      string         `json:"verdict"` // ok | violation | inconclusive
+	Sig          string         `json:"sig,omitempty"`
+	Msg          string         `json:"msg,omitempty"`
+	Dials        []*dialResult  `json:"dials"`
+	Final        []string       `json:"final_cache"`
+	Events       []event        `json:"events"`
+	Addrs        []string       `json:"addrs"`
+	Nontrivial   bool           `json:"nontrivial"`
+	Labels       []string       `json:"labels"`
+	MinGapUS     int64          `json:"min_opposite_start_gap_us"`
+	DialErrors   int            `json:"dial_errors"`
+	HeldChecked  int            `json:"held_streams_checked"`
+	HeldEchoFail int            `json:"held_streams_echo_failed_conn_alive"`
+	WallMS       int64          `json:"wall_ms"`
+	MaxStallUS   int64          `json:"max_scheduler_stall_us"`
 	KnownHits    map[string]int `json:"known_finding_hits,omitempty"`
 	E1           []e1Hit        `json:"e1_evidence,omitempty"`
 }
@@ -866,7 +878,7 @@ func runTrial(p program, opt trialOpts) (out *outcome) {
 
 func TestC41(t *testing.T) {
 	rec := ev.New(t, "C41")
-	rec.Rule("PRNG-generated programmes (seeded from VERIF_SEED/shard) run against real overlay.QUIC transports on loopback: 2 (thorough: also 3) nodes; pre-existing cache state none / X->Y established / Y->X established; 1-3 rounds of 0-4 concurrent DialStream calls per side with start offsets 0-3 ms or a common barrier; identity flavour known/Unknown (Unknown bypasses the cache fast path, so it negotiates while a connection is cached); injected loss of the cached connection 0-100 ms before a round. Non-trivial (measured, not generated): two negotiating dials from opposite sides started within 1 ms of each other, or a negotiating dial started while at least one side held a cached connection. Distinct = distinct programmes.")
+	rec.Rule("PRNG-generated programmes (seeded from VERIF_SEED/shard) run against real overlay.QUIC transports on loopback: 2 (thorough: also 3) nodes; pre-existing cache state none / X->Y established / Y->X established; 1-3 rounds of 0-4 concurrent DialStream calls per side with start offsets 0-3 ms or a common barrier; identity flavour known/Unknown (Unknown bypasses the cache fast path, so it negotiates while a connection is cached); injected loss of the cached connection 0-100 ms before a round; simulated one-way latency 0/0.3/1/3/8 ms. Non-trivial (measured, not generated): two negotiating dials from opposite sides started within 1 ms of each other, or a negotiating dial started while at least one side held a cached connection. Distinct = distinct programmes.")
 	rec.Assume("TLS exported keying material identifies the two ends of one QUIC connection",
 		"the first close cause recorded by quic-go (context.Cause) is the close that actually terminated the connection end",
 		"close codes 508/406/401 are only produced by overlay's negotiation/reaper code, 999 only by the harness",
@@ -986,7 +998,7 @@ func TestC41(t *testing.T) {
 		rec.Add("trial_wall_ms_total", o.WallMS)
 		if o.MaxStallUS > maxStall {
 			maxStall = o.MaxStallUS
-			rec.Note("max_scheduler_stall_us", maxStall)
+			rec.Note(fmt.Sprintf("max_scheduler_stall_us_shard%d", ev.Shard()), maxStall)
 		}
 		for sig := range o.KnownHits {
 			rec.Excluded(sig)
